@@ -224,6 +224,10 @@ def correspondence(ctx):
                     if list(mo) != ro:
                         ok, why = False, f"outcome differs on path {rb}: model (index, dir) {mo} vs implementation {ro}"
                         break
+                    # reported statistics are truthful: n_step is the number of integrator steps that returned a state
+                    if int(stats["n_step"]) != integ.returned:
+                        ok, why = False, f"reported n_step {stats['n_step']} but the integrator returned {integ.returned} states on path {rb} (requested {c['n']})"
+                        break
                 else:
                     nxt, nstep, accn, accd, depth, dv, er = mo
                     acc = (accn / accd) / nstep if nstep and not (dv or er) else 0.0
